@@ -7,4 +7,6 @@ INVARIANT StrictLazyAgree
 INVARIANT OrderIndependent
 INVARIANT EdgeSet
 INVARIANT Total
+INVARIANT DebugNeutral
+INVARIANT DebugComplete
 INVARIANT Replay
